@@ -16,8 +16,9 @@ def lcExpected (isCap : Bool) (res : Res) : Option Nat :=
   | .map _ ks _ => if isCap then none else some ks.length
   | _ => none
 
-def lcAccepts (isCap : Bool) (n : Node) (v : Val) (p : List Seg) (o : LcOut) : Bool :=
-  match nav n v p with
+/-- Acceptance given where navigation ended. -/
+def lcAcceptsNav (isCap : Bool) (r : NavR) (o : LcOut) : Bool :=
+  match r with
   | .found res via =>
     (match lcExpected isCap res with
      | some k => o == .val k
@@ -26,5 +27,8 @@ def lcAccepts (isCap : Bool) (n : Node) (v : Val) (p : List Seg) (o : LcOut) : B
   -- "the only error is for a segment that cannot be parsed": an error is allowed here, and only here
   | .perr _ => o == .err || o == .val 0
   | .unspec => true
+
+def lcAccepts (isCap : Bool) (n : Node) (v : Val) (p : List Seg) (o : LcOut) : Bool :=
+  lcAcceptsNav isCap (nav n v p) o
 
 end Inspector
